@@ -252,6 +252,33 @@ pub fn core_workload(seed: u64, n: u64) -> Digest {
             Ok(x) => dig_dt(&mut d, &x),
             Err(e) => dig_err(&mut d, &e),
         }
+        // nanosecond counts on either side of a power of two (2^60 .. 2^70): where a narrower path taken in one
+        // configuration only would wrap
+        {
+            let k = 60 + (r.next() % 11) as u32;
+            let e = (r.next() % 5) as i128 - 2;
+            let total = (if r.next() % 2 == 0 { 1i128 } else { -1i128 } << k) + e + if r.next() % 3 == 0 { (r.next() % 1_000_000_000) as i128 } else { 0 };
+            match tz::UtcDateTime::from_total_nanoseconds(total) {
+                Ok(x) => {
+                    d.i(x.unix_time());
+                    d.i(x.nanoseconds() as i64);
+                    d.i(x.year() as i64);
+                    d.i((x.total_nanoseconds() == total) as i64);
+                }
+                Err(e) => dig_err(&mut d, &e),
+            }
+            match DateTime::from_total_nanoseconds_and_local(total, types[(r.next() % 5) as usize]) {
+                Ok(x) => {
+                    dig_dt(&mut d, &x);
+                    d.i((x.total_nanoseconds() == total) as i64);
+                }
+                Err(e) => dig_err(&mut d, &e),
+            }
+            match DateTime::from_total_nanoseconds(total, z) {
+                Ok(x) => dig_dt(&mut d, &x),
+                Err(e) => dig_err(&mut d, &e),
+            }
+        }
         let y = r.range(-3000, 3000) as i32;
         match DateTime::new(y, 1 + (r.next() % 12) as u8, 1 + (r.next() % 31) as u8, (r.next() % 24) as u8, (r.next() % 60) as u8, (r.next() % 61) as u8, ns, types[(r.next() % 5) as usize]) {
             Ok(x) => dig_dt(&mut d, &x),
